@@ -26,9 +26,13 @@ func c05Step(x *engine.Exec) []engine.Failure {
 			out = append(out, f)
 		}
 	}
+	two63 := new(big.Rat).SetInt(new(big.Int).Lsh(big.NewInt(1), 63))
 	for _, den := range s.Denoms {
 		a := s.Assets[den]
 		for v := range w.Vals {
+			if D := s.Vals[v].DelShares[den]; D != nil && D.Cmp(two63) >= 0 {
+				x.Cnt.Inc("state.validator_with_2^63_delegator_shares")
+			}
 			for _, amt := range []string{"1", "1000000000000"} {
 				op := world.Op{K: world.KDelegate, D: -1, V: v, Denom: den, Amt: amt}
 				r := w.Exec(ctx, op)
@@ -43,6 +47,10 @@ func c05Step(x *engine.Exec) []engine.Failure {
 						cause = "delegate-to-validator-with-delegator-shares-but-no-tokens"
 					case strings.Contains(r.Err.Error(), "insufficient funds") && strings.Contains(r.Err.Error(), "spendable") && valueChangeAfterReward(x):
 						cause = "reward-pool-short"
+					case r.Panicked && strings.Contains(r.Err.Error(), "division by zero") && D != nil && D.Cmp(ratI(1)) >= 0 && modulePricesZero(s, v, den):
+						// the validator's stake is worth tokens, but the module prices it through the 18-decimal ratio
+						// validatorShares/totalShares, which rounds to zero once the asset has >= 2e18 times more shares elsewhere
+						cause = ratioCause
 					}
 					_ = a
 					add(fail("enter", cause, "after %s: outsider cannot delegate %s%s to v%d: %v", x.Op.String(), amt, den, v, r.Err))
@@ -80,18 +88,42 @@ func c05Step(x *engine.Exec) []engine.Failure {
 				return "reported-balance-rounded-up-beyond-share-window"
 			case s.Assets[p.Denom].TotalValidatorShares.IsZero() && s.Assets[p.Denom].TotalTokens.IsPositive():
 				return "asset-fully-slashed-total-without-shares"
+			case strings.Contains(e, "insufficient delegation shares") && bigAsset(s, p.Denom) && D != nil && vt != nil && vt.Sign() > 0 &&
+				ratQuo(ratMul(world.RatInt(p.Reported), D), vt).Cmp(ratAdd(p.Shares, big.NewRat(1, 100))) <= 0:
+				// in exact arithmetic the position holds enough shares for its reported balance; the module multiplies the
+				// 18-decimal ratio delegatorShares/validatorTokens by >= 1e18 tokens, which is off by whole shares
+				return ratioCause
+			case (strings.Contains(e, "insufficient delegation shares") || strings.Contains(e, "insufficient tokens")) && bigAsset(s, p.Denom) &&
+				p.Reported.BigInt().Cmp(world.Floor(ratAdd(p.Value, big.NewRat(1, 100)))) != 0:
+				// the reported balance is not floor(exact value + 0.01), the query's own definition
+				return ratioCause
+			case strings.Contains(e, "insufficient tokens") && bigAsset(s, p.Denom) && world.RatInt(p.Reported).Cmp(ratAdd(p.Value, big.NewRat(1, 100))) <= 0:
+				// the position is worth its reported balance; Undelegate re-prices it through the rounded ratios and finds less
+				return ratioCause
+			case strings.Contains(e, "negative coin amount") && bigAsset(s, p.Denom):
+				// either the reported balance is not floor(exact value + 0.01), or it is and Undelegate re-prices it differently: at >= 1e18 base
+				// units the 18-decimal share ratios that price it are off by whole units, in the query and again in Undelegate
+				return ratioCause
 			}
 			return ""
+		}
+		classifyBig := func(err error) string {
+			c := classify(err)
+			if c == "" && strings.Contains(err.Error(), "insufficient funds") && bigAsset(s, p.Denom) {
+				// payouts are index x reported token amount; the reported amounts are off by whole units (see above)
+				return ratioCause
+			}
+			return c
 		}
 		r := w.Exec(ctx, world.Op{K: world.KClaim, D: p.D, V: p.V, Denom: p.Denom})
 		x.Cnt.Inc("probe.claim")
 		if r.Err != nil {
-			add(fail("claim", classify(r.Err), "after %s: %s cannot claim: %v", x.Op.String(), p.Key(), r.Err))
+			add(fail("claim", classifyBig(r.Err), "after %s: %s cannot claim: %v", x.Op.String(), p.Key(), r.Err))
 		}
 		r = w.Exec(ctx, world.Op{K: world.KUndelegateAll, D: p.D, V: p.V, Denom: p.Denom})
 		x.Cnt.Inc("probe.full_exit")
 		if r.Err != nil {
-			add(fail("exit", classify(r.Err), "after %s: %s cannot undelegate its reported balance %s (exact value %s): %v", x.Op.String(), p.Key(), p.Reported, world.RatF(p.Value), r.Err))
+			add(fail("exit", classifyBig(r.Err), "after %s: %s cannot undelegate its reported balance %s (exact value %s): %v", x.Op.String(), p.Key(), p.Reported, world.RatF(p.Value), r.Err))
 		}
 	}
 	if x.Op.K == world.KSlash {
@@ -133,14 +165,31 @@ func init() {
 				opSlash(0, "0.99"), opSlash(0, "0.99"),
 			}
 			staked := []world.Op{opDel(0, 0, "aaa", "10"), opDel(1, 0, "aaa", "7"), opDel(1, 1, "aaa", "3"), opBlock(1), opReward("stake", "1000")}
+			// magnitudes: 18-decimal assets put 1e18..1e30 base units (and as many shares) on a validator; totals cross 2^63 and 2^64 (4 and 10 whole tokens of an 18-decimal asset per delegation)
+			magAl := Alpha{
+				Dels: []int{0, 1}, Vals: []int{0, 1}, Denoms: []string{"aaa"},
+				DelAmts: []string{"4000000000000000000", "10000000000000000000"}, UndAmts: []string{"1"}, UndAll: true,
+				RedAmts: []string{"1000000000000000000"}, RedAll: true, Claim: true,
+				SlashVals: []int{0}, SlashF: []string{"0.333333333333333333"},
+				BlockDts: dts(1, 3),
+				Rewards:  []world.Op{{K: world.KReward, Denom: "stake", Amt: "1000"}},
+			}
+			mag := func(budgets []int, depth int) *engine.Scenario {
+				sc := mk("c05-magnitude", [][]world.Op{nil, {opDel(0, 0, "aaa", "4000000000000000000"), opDel(1, 0, "aaa", "1000000000000000000"), opBlock(1)}}, budgets, depth)
+				sc.Ops = magAl.Ops
+				sc.Required = []string{"probe.delegate", "probe.claim", "probe.full_exit", "state.validator_with_2^63_delegator_shares"}
+				return sc
+			}
 			if tier == "thorough" {
 				return []*engine.Scenario{
+					mag([]int{4, 1, 1, 2, 0}, 6),
 					mk("c05-empty", [][]world.Op{nil}, []int{4, 2, 1, 2, 0}, 7),
 					mk("c05-staked", [][]world.Op{staked, deep}, []int{3, 2, 1, 2, 0}, 6),
 					unionScenarioDepth("C05", "c05-union", tier, c05Step, nil, 5),
 				}
 			}
 			return []*engine.Scenario{
+				mag([]int{3, 1, 1, 2, 0}, 4),
 				mk("c05-empty", [][]world.Op{nil}, []int{3, 1, 1, 2, 0}, 4),
 				mk("c05-staked", [][]world.Op{staked, deep}, []int{2, 1, 1, 2, 0}, 3),
 				unionScenarioDepth("C05", "c05-union", tier, c05Step, nil, 3),
@@ -151,6 +200,26 @@ func init() {
 			"slash fractions 1/3, 0.99, 1; take rate 0.3; reward inflow in the bond denom",
 		},
 	})
+}
+
+const ratioCause = "18-decimal-share-ratio-precision"
+
+// modulePricesZero: validator v holds shares of the asset that are worth tokens, but the module's own pricing
+// (validatorShares / totalShares rounded to 18 decimals, then x totalTokens) gives zero.
+func modulePricesZero(s *world.Snap, v int, den string) bool {
+	a := s.Assets[den]
+	vs := s.Vals[v].ValShares[den]
+	if vs == nil || vs.Sign() <= 0 || !a.TotalValidatorShares.IsPositive() {
+		return false
+	}
+	return ratDec(vs).Quo(a.TotalValidatorShares).MulInt(a.TotalTokens).IsZero()
+}
+
+// bigAsset: the asset's staked total is at least 2e16 base units (0.02 token of an 18-decimal asset): from there on the
+// rounding of an 18-decimal ratio (0.5e-18) multiplied by the total exceeds the 0.01 window the module allows for.
+func bigAsset(s *world.Snap, den string) bool {
+	a, ok := s.Assets[den]
+	return ok && a.TotalTokens.GTE(mi("20000000000000000"))
 }
 
 // needsMoreWholeShares is the exact condition under which the unchanged ValidateDelegatedAmount refuses the reported
